@@ -397,6 +397,11 @@ func (s Server) Serve(c context.Context, conn network.Conn) (err error) {
 			})
 		}
 		if err = writeResponse(ctx, zw); err != nil {
+			// the deferred block releases the read buffer the blocking read of
+			// DetectConnectionClose works on: wait for it here too
+			if senseConnClose {
+				statefulConn.AbortBlockingRead()
+			}
 			return
 		}
 
